@@ -264,6 +264,24 @@ func c07tag(c *core.Ctx, r *core.Reporter) {
 				var vals []ssa.Value
 				vals = append(vals, valueAliases(call, nil)...)
 				rr, gt := false, false
+				// inside a loop (the iteration forms call the engine once per pass) the success edge of each test
+				// must leave the loop on every path: an exit that is recognised and then falls through to the
+				// next pass is dropped
+				loop := core.InnermostLoop(core.Loops(fn), call.Block())
+				leaves := func(succs []*ssa.BasicBlock) bool {
+					if len(succs) == 0 {
+						return false
+					}
+					if loop == nil {
+						return true
+					}
+					for _, sb := range succs {
+						if !leavesLoop(sb, loop) {
+							return false
+						}
+					}
+					return true
+				}
 				for _, v := range vals {
 					if refs := v.Referrers(); refs != nil {
 						for _, rf := range *refs {
@@ -272,15 +290,15 @@ func c07tag(c *core.Ctx, r *core.Reporter) {
 							}
 						}
 					}
-					if len(assertedTo(v, core.SlipPath, "ReturnResult")) > 0 {
+					if leaves(assertedTo(v, core.SlipPath, "ReturnResult")) {
 						rr = true
 					}
-					if len(assertedTo(v, core.SlipPath, "GoTo")) > 0 {
+					if leaves(assertedTo(v, core.SlipPath, "GoTo")) {
 						gt = true
 					}
 				}
 				ok2 := direct || (rr && gt)
-				r.Decide(ok2, carrier, key, c.Pos(call.Pos()), fmt.Sprintf("returned as it is: %v; tested against *ReturnResult: %v, against *GoTo: %v", direct, rr, gt))
+				r.Decide(ok2, carrier, key, c.Pos(call.Pos()), fmt.Sprintf("returned as it is: %v; tested against *ReturnResult with the success edge leaving the enclosing loop: %v, against *GoTo: %v", direct, rr, gt))
 			}
 		}
 	}
